@@ -157,6 +157,17 @@ impl AcceptState {
     }
 }
 
+/// The half of a stream a frame received from the peer is addressed to
+#[derive(Clone, Copy, Debug, PartialEq, Eq)]
+enum FrameTarget {
+    /// `STREAM`, `RESET_STREAM` and `STREAM_DATA_BLOCKED` are addressed to
+    /// the receiving half of a stream
+    ReceivingHalf,
+    /// `MAX_STREAM_DATA` and `STOP_SENDING` are addressed to the sending half
+    /// of a stream
+    SendingHalf,
+}
+
 /// Manages all active `Stream`s inside a connection
 #[derive(Debug)]
 pub struct StreamManagerState<S> {
@@ -201,6 +212,53 @@ impl<S: StreamTrait> StreamManagerState<S> {
             self.close((*err).into(), false);
         }
         result
+    }
+
+    /// Validates that the half of the stream a frame is addressed to exists.
+    ///
+    /// This only depends on the stream ID and therefore also covers streams
+    /// which have already been closed and removed.
+    fn validate_frame_target(
+        &self,
+        stream_id: StreamId,
+        target: FrameTarget,
+    ) -> Result<(), transport::Error> {
+        if !stream_id.stream_type().is_unidirectional() {
+            return Ok(());
+        }
+
+        let is_local = stream_id.initiator() == self.local_endpoint_type;
+
+        match target {
+            //= https://www.rfc-editor.org/rfc/rfc9000#section-19.8
+            //# An endpoint MUST terminate the connection with error
+            //# STREAM_STATE_ERROR if it receives a STREAM frame for a locally
+            //# initiated stream that has not yet been created, or for a send-only
+            //# stream.
+
+            //= https://www.rfc-editor.org/rfc/rfc9000#section-19.4
+            //# An endpoint that receives a RESET_STREAM frame for a send-only stream
+            //# MUST terminate the connection with error STREAM_STATE_ERROR.
+
+            //= https://www.rfc-editor.org/rfc/rfc9000#section-19.13
+            //# An endpoint that receives a STREAM_DATA_BLOCKED frame for a send-only
+            //# stream MUST terminate the connection with error STREAM_STATE_ERROR.
+            FrameTarget::ReceivingHalf if is_local => Err(transport::Error::STREAM_STATE_ERROR
+                .with_reason("frame received for a send-only stream")),
+
+            //= https://www.rfc-editor.org/rfc/rfc9000#section-19.10
+            //# An endpoint that
+            //# receives a MAX_STREAM_DATA frame for a receive-only stream MUST
+            //# terminate the connection with error STREAM_STATE_ERROR.
+
+            //= https://www.rfc-editor.org/rfc/rfc9000#section-19.5
+            //# An
+            //# endpoint that receives a STOP_SENDING frame for a receive-only stream
+            //# MUST terminate the connection with error STREAM_STATE_ERROR.
+            FrameTarget::SendingHalf if !is_local => Err(transport::Error::STREAM_STATE_ERROR
+                .with_reason("frame received for a receive-only stream")),
+            _ => Ok(()),
+        }
     }
 
     /// Inserts the `Stream` into the StreamContainer.
@@ -479,6 +537,7 @@ impl<S: 'static + StreamTrait> AbstractStreamManager<S> {
     fn handle_stream_frame<F>(
         &mut self,
         stream_id: StreamId,
+        target: FrameTarget,
         mut func: F,
     ) -> Result<(), transport::Error>
     where
@@ -491,6 +550,8 @@ impl<S: 'static + StreamTrait> AbstractStreamManager<S> {
             self.inner.reset_streams_on_error(|state| {
                 // Open streams if necessary
                 state.open_stream_if_necessary(stream_id)?;
+                // Make sure the peer is allowed to send this kind of frame
+                state.validate_frame_target(stream_id, target)?;
                 // Apply the provided function on the Stream.
                 // If the Stream does not exist it is no error.
                 state
@@ -890,7 +951,9 @@ impl<S: 'static + StreamTrait> stream::Manager for AbstractStreamManager<S> {
 
     fn on_data(&mut self, frame: &StreamRef) -> Result<(), transport::Error> {
         let stream_id = StreamId::from_varint(frame.stream_id);
-        self.handle_stream_frame(stream_id, |stream, events| stream.on_data(frame, events))
+        self.handle_stream_frame(stream_id, FrameTarget::ReceivingHalf, |stream, events| {
+            stream.on_data(frame, events)
+        })
     }
 
     fn on_data_blocked(&mut self, _frame: DataBlocked) -> Result<(), transport::Error> {
@@ -902,26 +965,28 @@ impl<S: 'static + StreamTrait> stream::Manager for AbstractStreamManager<S> {
         frame: &StreamDataBlocked,
     ) -> Result<(), transport::Error> {
         let stream_id = StreamId::from_varint(frame.stream_id);
-        self.handle_stream_frame(stream_id, |stream, events| {
+        self.handle_stream_frame(stream_id, FrameTarget::ReceivingHalf, |stream, events| {
             stream.on_stream_data_blocked(frame, events)
         })
     }
 
     fn on_reset_stream(&mut self, frame: &ResetStream) -> Result<(), transport::Error> {
         let stream_id = StreamId::from_varint(frame.stream_id);
-        self.handle_stream_frame(stream_id, |stream, events| stream.on_reset(frame, events))
+        self.handle_stream_frame(stream_id, FrameTarget::ReceivingHalf, |stream, events| {
+            stream.on_reset(frame, events)
+        })
     }
 
     fn on_max_stream_data(&mut self, frame: &MaxStreamData) -> Result<(), transport::Error> {
         let stream_id = StreamId::from_varint(frame.stream_id);
-        self.handle_stream_frame(stream_id, |stream, events| {
+        self.handle_stream_frame(stream_id, FrameTarget::SendingHalf, |stream, events| {
             stream.on_max_stream_data(frame, events)
         })
     }
 
     fn on_stop_sending(&mut self, frame: &StopSending) -> Result<(), transport::Error> {
         let stream_id = StreamId::from_varint(frame.stream_id);
-        self.handle_stream_frame(stream_id, |stream, events| {
+        self.handle_stream_frame(stream_id, FrameTarget::SendingHalf, |stream, events| {
             stream.on_stop_sending(frame, events)
         })
     }
